@@ -10,7 +10,7 @@ claimed = {
          "memfs/md5/protobuf models; scaled constants; deterministic goroutine schedule"),
  "C03": ("bounded symbolic execution of save/resume: patcher checkpoints serialized (gob model), interruption at every checkpoint index k and lag, in-progress output truncated to every length >= the checkpointed offset, brand-new patcher/pool/bowl resumed; SMT-decided",
          "For the two build pairs, fresh and overlay bowls, rsync and bsdiff series, every (k, lag, truncation) in the grid: resume succeeds and reproduces the uninterrupted result.",
-         "memfs/gob/md5/protobuf models; compression NONE only; one interruption per run"),
+         "memfs/gob/md5/protobuf models; compression NONE and two model codecs (the decompressing source's nested checkpoint is exercised; real codecs outside); chains of up to two interruptions"),
  "C06": ("bounded symbolic execution of Validate with the archive healer (zip container model) over 12 damage shapes incl. kind swaps hiding subtrees, under delay/preemption-bounded schedules of validator/consumer/heal-worker goroutines with several default policies; native replay",
          "For every damage shape, contents and explored schedule in the bound: healing returns nil, the build is complete afterwards and fail-fast validation passes; a valid directory is untouched.",
          "memfs (atomic calls = scheduling points)/zip container/md5/protobuf models; cooperative scheduler sound for DRF code"),
@@ -25,40 +25,40 @@ claimed = {
          "tar not encodable (stated outside the claim); zip/deflate formats not modelled (container model); race query covers wharf code only, not memory behind the memfs/zip models"),
  "C07": ("bounded symbolic execution of rediff.NewContext/Optimize (bsdiff.Do with workers, gosaca) followed by fresh and in-place application of the optimized patch; small alphabets; SMT-decided",
          "For all contents over the alphabet within the length bounds, the 5 shapes, partitions, ForceMapAll and size limits listed: Optimize succeeds and the optimized patch produces the new build.",
-         "memfs/md5/protobuf/ozzo models; scaled constants; deterministic schedule"),
+         "memfs/md5/protobuf/ozzo models; scaled constants; deterministic schedule; every pair of input/output compression settings with model codecs (real codecs outside)"),
  "C08": ("bounded symbolic execution of the differ's accounting: fully symbolic reuse shapes (no fresh bytes) and generic-position single/double edits (fresh <= introduced + (2k+2)B); patch parsed back; SMT-decided",
          "For every reuse shape and every edit kind/offset/length in the grid, for all contents: the stated byte bounds hold and fresh + reused == new size.",
          "memfs/md5/protobuf models; B scaled; generic-position assumption stands for high entropy"),
  "C10": ("bounded symbolic execution of patcher.New/Resume, rediff, ReadSignature/ComputeHashInfo/block validator and overlay Patch on hand-built streams whose message fields are fresh 32/64-bit symbols (one message at a time), structure mutations and every byte-level truncation; implicit panic/termination checks; SMT-decided",
          "For every value of the mutated fields (full range) and every truncation point in the grid: each consumer returns (error or nil) without panicking within the step budget.",
-         "memfs/protobuf models; containers well-formed; compression NONE"),
+         "memfs/protobuf models (concrete messages have their native encoding); containers well-formed; compression NONE; non-termination = budget exhaustion confirmed natively by timeout"),
  "C17": ("bounded symbolic execution of whitelisted application with recording bowl/pool for all 16 subsets, plain and optimized patches, plus a hand-built series with symbolic BsdiffHeader.TargetIndex over a 2051-file container; SMT-decided",
          "For all subsets and contents in the grid: only whitelisted files are written/copied/read-for and they equal full application; skipping stays in sync for every TargetIndex/Seek value.",
          "memfs/md5/protobuf (tag-faithful) models; scaled constants"),
  "C04": ("bounded symbolic execution of both signature producers (ComputeSignature, diff-time signing via WritePatch), ReadSignature, ComputeHashInfo, Validate/AssertValid; independent reference hashes in the harness; SMT decides all branches/assertions",
          "For every build in the grid (sizes on/around block multiples, 1-3 files, symlink, empty dir, short-read slicings) the solver shows both producers agree with the reference for all contents and the build validates.",
-         "memfs/md5 (injective)/protobuf models; deterministic schedule; NONE compression only"),
+         "memfs/md5 (injective)/protobuf models; deterministic schedule; NONE and model codecs; regime-R instances at 64 KiB blocks"),
  "C05": ("bounded symbolic execution of Validate (wounds-file and fail-fast modes), ValidatingPool, drip writer, AggregateWounds, WoundsWriter with independent symbolic signed/actual contents; SMT-decided; native replay",
          "For all signed/actual contents and lengths in the grid and all entry-kind damage combinations: differing offsets are covered by wounds, wrong lengths/kinds are reported, wounds are well-formed.",
          "memfs/md5/protobuf models; BlockSize and MaxWoundSize declared values scaled by overlay; deterministic schedule"),
  "C09": ("bounded symbolic execution of the safekeeper pool under the real patcher and fresh bowl with an independently symbolic damaged old file; SMT-decided; native replay",
          "For every pristine/damaged length pair in the grid and all contents: error or exact result, and undamaged is accepted.",
-         "memfs (copy buffer B/2)/md5/protobuf models; bsdiff-series consumers not covered"),
+         "memfs (copy buffer B/2)/md5/protobuf models; bsdiff series through LRU file + safekeeper with the production chunk:block ratio; one regime-R harness (real 64 KiB blocks / 32 KiB buffers)"),
  "C11": ("bounded symbolic execution of wsync.CreateSignature/ComputeDiff/ApplySingle from go/ssa; SMT (z3/cvc5) decides every branch and assertion; counterexamples replayed natively",
          "Within the listed instance grid (block sizes 1..4, 1-3 old files, new content up to 9 bytes, scaled MaxDataOp 3..8) every byte value of every input is covered at once by the solver; outside the grid nothing is claimed.",
-         "md5 replaced by an injective model; MaxDataOp's declared value scaled by overlay (uses are real); solver answers trusted, unknown = inconclusive"),
+         "md5 replaced by an injective model; MaxDataOp's declared value scaled by overlay (uses are real) and, in regime-R instances, left at 4 MiB with the limit written out in the oracle; solver answers trusted, unknown = inconclusive"),
  "C12": ("bounded symbolic execution of lrufile (symbolic seek offsets / op sequences) and of bsdiff.Do + Patch/Apply (goroutines, gosaca) over small alphabets; SMT-decided; native replay",
          "lrufile: every op sequence of length 3-4 with symbolic offsets and contents agrees with a reference reader; bsdiff: every (old,new) over the alphabet within the length bounds and partitions 0..16 round-trips, also from a saved mid-series offset.",
          "scan block / lru geometry declared values scaled; deterministic goroutine schedule (schedules: C15)"),
  "C13": ("bounded symbolic execution of wire.WriteContext/ReadContext incl. WantSave/PopCheckpoint/Resume over seeksource and a lagging-source model; assertions decided by term identity / SMT",
          "For every message-length pattern, save subset and checkpoint lag in the grid, read-back equals written for all payload bytes and every popped checkpoint resumes at the next unread message.",
-         "protobuf/gob models; compressors represented only by the source checkpoint contract (not_applicable part: gzip/brotli codecs)"),
+         "protobuf/gob models; compressors represented by the source checkpoint contract and by model codecs plugged into CompressWire/DecompressWire (real gzip/brotli codecs and their adapter packages outside the claim)"),
  "C14": ("bounded symbolic execution of the overlay writer/processor and OverlayPatchContext.Patch with fully symbolic old/new contents (solver enumerates equality patterns), write slicings, flushes and session resumes",
          "For all old/new contents up to 2W+3 bytes (scaled window W, threshold T) and the listed write/flush/resume patterns: old+overlay truncated == new.",
-         "overlayBufSize/overlaySameThreshold declared values scaled; full reads from the old file"),
+         "overlayBufSize/overlaySameThreshold declared values scaled, plus regime-R instances at 128 KiB / 8 KiB; the overlay bowl's entry writer (save / gob / resume in a new bowl) included"),
  "C18": ("bounded symbolic execution of ValidatingPool.GetWriter, drip.Writer, onclose, blockValidator in error and wound mode with every slicing of the written bytes; SMT-decided; native replay",
          "For all signed/written contents and lengths in the grid and every way of slicing the writes: failing call, pass-through prefix and wound records are exactly as the property states.",
-         "BlockSize declared value scaled; md5 injective model; recording inner pool"),
+         "BlockSize declared value scaled, plus regime-R instances; md5 injective model; recording inner pool; two writers of one pool interleaved"),
 }
 na = {
 }
